@@ -508,8 +508,10 @@ class LSMTree(Entity):
         )
         self._memtable.set_clock(self._clock)
 
-        # Flush to SSTable
-        sstable = old_memtable.flush()
+        # Flush to SSTable. The immutable memtable keeps its contents so that reads
+        # issued during the write latency still see them; it is dropped below,
+        # in the same step that installs the SSTable in L0.
+        sstable = old_memtable.flush(clear=False)
         self._sstable_bytes_written += sstable.size_bytes
 
         # Write latency for creating SSTable on disk
